@@ -261,3 +261,123 @@ Proof.
   - intros. now apply lru_step_ok.
   - apply lru_inv_empty.
 Qed.
+
+(* ================================================================== LRUCache refines the recency list *)
+Definition getd (k : nat) (d : list (nat * nat)) : nat :=
+  match aget k d with Some v => v | None => 0 end.
+(* abstraction: the queue decorated with the values of the dict *)
+Definition lru_abs (st : lru) : list kv := map (fun k => (k, getd k (l_dict st))) (l_queue st).
+
+Lemma getd_aset_same : forall k v d, getd k (aset k v d) = v.
+Proof. intros. unfold getd. now rewrite aget_aset_same. Qed.
+Lemma getd_aset_other : forall k x v d, k <> x -> getd x (aset k v d) = getd x d.
+Proof. intros. unfold getd. now rewrite aget_aset_other. Qed.
+Lemma getd_adel_other : forall k x d, k <> x -> getd x (adel k d) = getd x d.
+Proof. intros. unfold getd. now rewrite aget_adel_other. Qed.
+
+Lemma lookup_map : forall (f : nat -> nat) k q,
+  lookup k (map (fun x => (x, f x)) q) = if qmem k q then Some (f k) else None.
+Proof.
+  intros f k q. unfold lookup. induction q as [|x t IH]; cbn; auto.
+  rewrite (Nat.eqb_sym k x). destruct (Nat.eqb x k) eqn:E; cbn.
+  - apply Nat.eqb_eq in E. now subst.
+  - apply IH.
+Qed.
+
+Lemma without_map_notin : forall (f : nat -> nat) k q, ~ In k q ->
+  without k (map (fun x => (x, f x)) q) = map (fun x => (x, f x)) q.
+Proof.
+  intros f k q. unfold without. induction q as [|x t IH]; cbn; auto. intros N.
+  destruct (Nat.eqb x k) eqn:E; cbn.
+  - apply Nat.eqb_eq in E. subst. exfalso. auto.
+  - f_equal. auto.
+Qed.
+
+Lemma without_map : forall (f : nat -> nat) k q, NoDup q ->
+  without k (map (fun x => (x, f x)) q) = map (fun x => (x, f x)) (qremove k q).
+Proof.
+  intros f k q ND. induction ND as [|x t NI ND IH]; cbn; auto.
+  rewrite (Nat.eqb_sym k x). destruct (Nat.eqb x k) eqn:E; cbn.
+  - apply Nat.eqb_eq in E. subst. now apply without_map_notin.
+  - f_equal. apply IH.
+Qed.
+
+Lemma lru_abs_length : forall st, length (lru_abs st) = length (l_queue st).
+Proof. intros. unfold lru_abs. apply map_length. Qed.
+
+Lemma lru_abs_lookup : forall mx st k, lru_inv mx st -> lookup k (lru_abs st) = aget k (l_dict st).
+Proof.
+  intros mx [d q] k (Nq & Nk & EQ & LE). cbn in *. unfold lru_abs; cbn. rewrite lookup_map.
+  destruct (qmem k q) eqn:E.
+  - apply qmem_In, EQ, amem_In in E. destruct (amem_aget _ _ E) as [v Hv]. unfold getd. now rewrite Hv.
+  - symmetry. apply amem_none. apply amem_false_In. rewrite <- EQ. intros H. apply qmem_In in H. congruence.
+Qed.
+
+Arguments lru_abs : simpl never.
+
+(* one step of the code = one step of the recency-list specification *)
+Lemma lru_step_refines : forall D mx st (o : op D), 1 <= mx -> lru_inv mx st ->
+  lru_spec_step mx (lru_abs st) o = (lru_abs (fst (lru_step mx st o)), snd (lru_step mx st o)).
+Proof.
+  intros D mx [d q] o Hmx Hinv. pose proof (lru_inv_len _ _ Hinv) as HL.
+  pose proof (fun k => lru_abs_lookup mx (mkLru d q) k Hinv) as HLK.
+  pose proof Hinv as (Nq & Nk & EQ & LE). cbn in *.
+  destruct o as [k v dd|k|k| |]; cbn.
+  - (* put *)
+    rewrite HLK. unfold lru_put; cbn. destruct (amem k d) eqn:Ek.
+    + destruct (amem_aget _ _ Ek) as [v0 Hv0]. rewrite Hv0.
+      assert (Hq : In k q) by (apply EQ, amem_In; auto).
+      destruct (qmem k q) eqn:Eq; [|apply qmem_In in Hq; congruence]. cbn. f_equal.
+      unfold lru_abs; cbn [l_dict l_queue fst snd]. rewrite without_map by auto. rewrite map_app. cbn [map]. rewrite getd_aset_same.
+      f_equal. apply map_ext_in. intros x Hx. rewrite getd_aset_other; auto.
+      apply In_qremove_iff in Hx; auto. intros ->. tauto.
+    + rewrite (amem_none _ _ Ek).
+      assert (NK : ~ In k (map fst d)) by (apply amem_false_In; auto).
+      assert (NQ : ~ In k q) by (rewrite EQ; auto).
+      rewrite lru_abs_length. cbn.
+      destruct (mx <=? length q) eqn:Efull.
+      * apply Nat.leb_le in Efull. destruct q as [|h q']; [cbn in Efull; lia|].
+        assert (Hh : amem h d = true) by (apply amem_In, EQ; now left).
+        rewrite Hh. cbn. f_equal. unfold lru_abs; cbn [l_dict l_queue fst snd]. rewrite map_app. cbn [map]. rewrite getd_aset_same.
+        f_equal. apply map_ext_in. intros x Hx. inversion Nq as [|? ? Nh Nq']; subst.
+        rewrite getd_aset_other, getd_adel_other; auto.
+        -- intros ->. auto.
+        -- intros ->. apply NQ. now right.
+      * cbn. f_equal. unfold lru_abs; cbn [l_dict l_queue fst snd]. rewrite map_app. cbn [map]. rewrite getd_aset_same.
+        f_equal. apply map_ext_in. intros x Hx. rewrite getd_aset_other; auto. intros ->. auto.
+  - (* get *)
+    rewrite HLK. unfold lru_get; cbn. destruct (amem k d) eqn:Ek; cbn.
+    + destruct (amem_aget _ _ Ek) as [v0 Hv0]. rewrite Hv0.
+      assert (Hq : In k q) by (apply EQ, amem_In; auto).
+      destruct (qmem k q) eqn:Eq; [|apply qmem_In in Hq; congruence]. cbn. f_equal.
+      unfold lru_abs; cbn [l_dict l_queue fst snd]. rewrite without_map by auto. rewrite map_app. cbn [map]. f_equal.
+      unfold getd. now rewrite Hv0.
+    + now rewrite (amem_none _ _ Ek).
+  - (* in *)
+    rewrite HLK. unfold amem. destruct (aget k d); auto.
+  - (* len *)
+    rewrite lru_abs_length. cbn. now rewrite HL.
+  - reflexivity.
+Qed.
+
+Lemma refines_gen : forall S T O (step : S -> O -> S * out) (spec : T -> O -> T * out)
+                           (I : S -> Prop) (abs : S -> T),
+  (forall st o, I st -> I (fst (step st o))) ->
+  (forall st o, I st -> spec (abs st) o = (abs (fst (step st o)), snd (step st o))) ->
+  forall ops st, I st -> run_ops step st ops = run_ops spec (abs st) ops.
+Proof.
+  intros S T O step spec I abs HI HS ops. induction ops as [|o t IH]; intros st Hst; cbn; auto.
+  rewrite (HS st o Hst). pose proof (HI st o Hst) as H'. destruct (step st o) as [st' r]. cbn in *.
+  f_equal. auto.
+Qed.
+
+(* lru_refines: on every operation sequence the code produces exactly the outputs of the recency list *)
+Theorem lru_refines : forall D mx (ops : list (op D)), 1 <= mx ->
+  run_ops (lru_step mx) lru_empty ops = run_ops (lru_spec_step mx) [] ops.
+Proof.
+  intros D mx ops Hmx.
+  apply (refines_gen _ _ _ (lru_step mx) (lru_spec_step mx) (lru_inv mx) lru_abs).
+  - intros st o H. now apply lru_step_ok.
+  - intros st o H. now apply lru_step_refines.
+  - apply lru_inv_empty.
+Qed.
